@@ -271,4 +271,20 @@ def _run(case, scripts, orders, kill, kill_at, short, files_tag, counters, nts):
                              scripts={str(k): v for k, v in scripts.items()}, shared_model=case["shared"], killed=kill)
                     mech = "differs-from-solo:%s" % ("file-scenarios" if files_tag else "shared-model" if case["shared"] else "own-model")
                     return dict(verdict="violated", nt=nts, counters=counters, mech=mech, witness=w)
+        if short is not None and kill_at is not None and files_tag is None:
+            # the short-lived / stopped instance itself: alone on a fresh server, with the same passing of time at the same point of ITS
+            # script, it must answer the same (in particular: once it has expired it is gone, whoever else lives on the server)
+            p = sum(1 for j in order[:kill_at] if j == short)
+            alone = play({short: scripts[short]}, [short] * len(scripts[short]), case["shared"], case["adapter"], kill, p, short,
+                         creation="lazy" if case.get("creation") == "lazy" else "upfront")
+            alone = [tuple(x) for x in json.loads(json.dumps(alone[short]))]
+            counters["short_lived_solo_replays"] = counters.get("short_lived_solo_replays", 0) + 1
+            for n, (a, b) in enumerate(zip(got[short], alone)):
+                counters["responses_compared"] = counters.get("responses_compared", 0) + 1
+                if n >= p:
+                    counters["short_lived_responses_after_expiry"] = counters.get("short_lived_responses_after_expiry", 0) + 1
+                if a != b:
+                    w = dict(kind="differs-from-solo", instance=short, request_index=n, request=scripts[short][n], interleaved=a, solo=b, order=order,
+                             scripts={str(k): v for k, v in scripts.items()}, shared_model=case["shared"], killed=kill, kill_at=kill_at)
+                    return dict(verdict="violated", nt=nts, counters=counters, mech="short-lived-differs-from-solo:%s" % kill, witness=w)
     return dict(verdict="held", nt=nts, counters=counters, sample=dict(case=case, scripts={str(k): [x[0] for x in v] for k, v in scripts.items()}))
